@@ -218,15 +218,21 @@ CHECKS['C16'] = (
     BASE_NOTE + 'argparse.', '6/C16')
 
 CHECKS['C10'] = (
-    'Lean 4 theorems: ownership model of the use_copy discipline (a pipeline whose first step copies never writes to the caller\'s object and returns a '
-    'private one) applied by decide to every writer pipeline, use_copy guard and call site regenerated from the source + dynamic twin (deep snapshot and '
-    'identity-disjointness) on the real functions',
-    'Proof (on the model / over regenerated facts): first_copy_protects, first_inplace_mutates, writers_protect_caller (all 29 writers), '
-    'use_copy_functions_guarded (all 15 use_copy functions of manip/sort copy at entry or delegate), inplace_call_sites, inner_calls_in_place. '
-    'Validation: every public function of manip, sort, writers (all formats), compare/diff, validator, convert_references and the list arguments of the '
-    'retrieval API — argument deeply equal to its snapshot afterwards and no dict/list of the result is an object of the argument. Partial: the full '
-    'heap-level ownership analysis of DESIGN 6/C10 (effect skeletons of every function) is not built; aliasing inside function bodies is covered by the dynamic twin only.',
-    BASE_NOTE + 'CPython id()/deepcopy; only dict and list objects are tracked.', '6/C10')
+    'Lean 4 theorems: (1) a heap-level ownership model (containers as heap nodes, relational semantics of deepcopy / derive / alias / sub / store / '
+    'return with branches and loops; an abstract may-point-to / may-reach check proved sound for every execution: accepted_is_safe) applied by '
+    'decide +kernel to the effect skeleton of every in-scope function body, regenerated from the AST on every run with callees inlined '
+    '(all_skeletons_accepted); (2) the use_copy discipline over regenerated pipelines, guards and call sites; + dynamic twin (deep snapshot and '
+    'identity-disjointness) on the real functions, cross-checked against the static verdicts',
+    'Proof (on the model / over regenerated facts): accepted_is_safe (an accepted body never writes to a container of the caller and never returns a value '
+    'from which one can be reached, along every execution: any branches, any number of loop iterations, any choice of members), all_skeletons_accepted '
+    '(the 62 bodies of manip, sort, the writer of every format, curate.compare, curate.diff, validate_data, convert_references as extracted from the '
+    'current source, all but sort_basis_dict), excluded_is_refused; first_copy_protects, writers_protect_caller, use_copy_functions_guarded, '
+    'inplace_call_sites, inner_calls_in_place. Validation: every public function in scope on store and generated dictionaries - argument deeply equal to '
+    'its snapshot afterwards and no dict/list of the result is an object of the argument; a function the probes convict while its skeleton is accepted is '
+    'reported as an extraction gap. Partial: the AST-to-skeleton extraction is trusted (callees outside the analysed modules are assumed to read only; '
+    'immutable values are not tracked); sort_basis_dict is beyond the two-bit abstraction and covered by the probes only; the retrieval API '
+    '(get_basis / get_references / filter_basis_sets arguments) is covered by the probes only.',
+    BASE_NOTE + 'tools/gen/gen_heap.py (AST to effect skeleton); CPython id()/deepcopy; only dict and list objects are tracked.', '6/C10 and 11.7')
 
 NOT_YET = {}
 
